@@ -469,6 +469,260 @@ impl Runner for R {
     }
 }
 
+// =====================================================================================
+// Area `c06e` (engine level, oracle only): real transactions on the LedgerSimulator with tips in
+// both forms, contingent locks, failing manifests and fee locks at total_cost-1 / total_cost /
+// total_cost+1; the receipt's fee_summary / fee_source / fee_destination / events are reconciled
+// with exact integer arithmetic.
+// =====================================================================================
+mod e {
+    use super::*;
+    use radix_engine::transaction::*;
+    use radix_engine::updates::*;
+    use radix_transactions::prelude::*;
+    use scrypto_test::prelude::{LedgerSimulator, LedgerSimulatorBuilder, LedgerSimulatorSnapshot, NoExtension};
+    use radix_substate_store_impls::memory_db::InMemorySubstateDatabase;
+    use radix_engine::blueprints::resource::{BurnFungibleResourceEvent, DepositEvent, PayFeeEvent};
+
+    pub struct E;
+    type Sim = LedgerSimulator<NoExtension, InMemorySubstateDatabase>;
+
+    impl Area for E {
+        fn gen(&self, rng: &mut Rng, n: usize, out: &mut dyn Write) {
+            for _ in 0..n {
+                let (tk, tv) = match rng.below(5) {
+                    0 => ('n', 0u64),
+                    1 => ('p', *rng.pick(&[1u64, 5, 10, 50, 100, 1000, 65535])),
+                    2 => ('b', *rng.pick(&[1u64, 7, 33, 9999, 10000, 1000000])),
+                    3 => ('p', rng.below(65536)),
+                    _ => ('b', rng.below(1_000_001)),
+                };
+                // scenario: 0 transfer, 1 transfer that fails at the end, 2 two locks, 3 non-contingent + contingent, 4 contingent + failure
+                let sc = rng.below(5);
+                // how the first lock is sized relative to the measured total cost: -2 tiny, -1 T-1, 0 T, 1 T+1, 2 generous
+                let rel: i64 = *rng.pick(&[-2i64, -1, -1, 0, 0, 0, 1, 1, 2, 2]);
+                let free = if rng.chance(1, 6) { rng.below(3) * 1_000_000_000_000_000_000 + rng.below(1000) } else { 0 };
+                writeln!(out, "tx {} {} {} {} {} {}", sc, tk, tv, rel, rng.below(1000), free).unwrap();
+            }
+            writeln!(out, "tx 9 n 0 0 0 0").unwrap();
+            writeln!(out, "tx 0 p 70000 0 0 0").unwrap();
+            writeln!(out, "frob").unwrap();
+        }
+        fn runner(&self) -> Box<dyn Runner> {
+            Box::new(RE { w: None })
+        }
+    }
+
+    struct World {
+        sim: Sim,
+        snap: LedgerSimulatorSnapshot,
+        a: ComponentAddress,
+        b: ComponentAddress,
+        pa: NonFungibleGlobalId,
+        pb: NonFungibleGlobalId,
+        va: NodeId,
+        vb: NodeId,
+    }
+    struct RE {
+        w: Option<World>,
+    }
+
+    fn world() -> World {
+        let mut sim = LedgerSimulatorBuilder::new().without_kernel_trace().build();
+        let (pk_a, _, a) = sim.new_allocated_account();
+        let (pk_b, _, b) = sim.new_allocated_account();
+        let va = sim.get_component_vaults(a, XRD)[0];
+        let vb = sim.get_component_vaults(b, XRD)[0];
+        let snap = sim.create_snapshot();
+        World { sim, snap, a, b, pa: NonFungibleGlobalId::from_public_key(&pk_a), pb: NonFungibleGlobalId::from_public_key(&pk_b), va, vb }
+    }
+
+    fn manifest(w: &World, sc: u64, fa: Decimal, fb: Decimal) -> TransactionManifestV1 {
+        let mb = ManifestBuilder::new();
+        match sc {
+            0 => mb.lock_fee(w.a, fa).withdraw_from_account(w.a, XRD, dec!(1)).try_deposit_entire_worktop_or_abort(w.b, None).build(),
+            1 => mb.lock_fee(w.a, fa).withdraw_from_account(w.a, XRD, dec!(1)).assert_worktop_contains(XRD, dec!(2)).try_deposit_entire_worktop_or_abort(w.b, None).build(),
+            2 => mb.lock_fee(w.a, fa).lock_fee(w.b, fb).withdraw_from_account(w.a, XRD, dec!(1)).try_deposit_entire_worktop_or_abort(w.b, None).build(),
+            3 => mb.lock_fee(w.a, fa).lock_contingent_fee(w.b, fb).withdraw_from_account(w.a, XRD, dec!(1)).try_deposit_entire_worktop_or_abort(w.b, None).build(),
+            _ => mb.lock_contingent_fee(w.b, fb).lock_fee(w.a, fa).withdraw_from_account(w.a, XRD, dec!(1)).assert_worktop_contains(XRD, dec!(2)).try_deposit_entire_worktop_or_abort(w.b, None).build(),
+        }
+    }
+
+    fn run(w: &mut World, m: TransactionManifestV1, tip: TipSpecifier, free: Decimal) -> Result<TransactionReceipt, String> {
+        let nonce = w.sim.next_transaction_nonce();
+        let proofs: BTreeSet<NonFungibleGlobalId> = [w.pa.clone(), w.pb.clone()].into_iter().collect();
+        let e = TestTransaction::new_v1_from_nonce(m, nonce, proofs).into_executable(w.sim.transaction_validator()).map_err(|e| format!("{:?}", e))?;
+        let ctx = ExecutionContext {
+            unique_hash: *e.unique_hash(),
+            pre_allocated_addresses: e.pre_allocated_addresses().to_vec(),
+            payload_size: e.payload_size(),
+            num_of_signature_validations: e.num_of_signature_validations(),
+            costing_parameters: TransactionCostingParameters { tip, free_credit_in_xrd: free },
+            epoch_range: e.overall_epoch_range().cloned(),
+            proposer_timestamp_range: e.overall_proposer_timestamp_range().cloned(),
+            disable_limits_and_costing_modules: e.disable_limits_and_costing_modules(),
+            intent_hash_nullifications: e.intent_hash_nullifications().to_vec(),
+        };
+        let e2 = ExecutableTransaction::new_v2(e.transaction_intent().clone(), e.subintents().to_vec(), ctx);
+        let sim = &mut w.sim;
+        catch(move || sim.execute_transaction(e2, ExecutionConfig::for_notarized_transaction(NetworkDefinition::simulator())))
+    }
+
+    impl Runner for RE {
+        fn step(&mut self, line: &str) -> Answer {
+            let t: Vec<&str> = line.split(' ').filter(|s| !s.is_empty()).collect();
+            if t.len() != 7 || t[0] != "tx" {
+                return Answer::ok("bad-op");
+            }
+            let (Some(sc), Some(tv), Ok(rel), Some(fbx), Some(free)) = (pu32(t[1]), pu32(t[3]), t[4].parse::<i64>(), pu32(t[5]), dec(t[6])) else { return Answer::ok("bad-op") };
+            let tip = match t[2] {
+                "n" => TipSpecifier::None,
+                "p" => match u16::try_from(tv) {
+                    Ok(p) => TipSpecifier::Percentage(p),
+                    Err(_) => return Answer::ok("bad-op"),
+                },
+                "b" => TipSpecifier::BasisPoints(tv),
+                _ => return Answer::ok("bad-op"),
+            };
+            if sc > 4 || free.is_negative() {
+                return Answer::ok("bad-op");
+            }
+            if self.w.is_none() {
+                self.w = Some(world());
+            }
+            let w = self.w.as_mut().unwrap();
+            let snap = w.snap.clone();
+            w.sim.restore_snapshot(snap);
+            let fb = Decimal::from(1u32) + Decimal::from_attos(I192::from(fbx as u64) * I192::from(1_000_000_000_000_000u64));
+            // pass 1: measure the total cost with generous locks (cost units do not depend on the locked amounts)
+            let m1 = manifest(w, sc as u64, dec!(5000), fb);
+            let r1 = match run(w, m1, tip, Decimal::ZERO) {
+                Ok(r) => r,
+                Err(p) => return Answer::fail("panic", "c06e-executor-panic", format!("pass 1 panicked: {}", p)),
+            };
+            if !r1.is_commit() {
+                return Answer::fail("probe-not-committed", "c06e-probe-rejected", format!("a generously funded transaction was not committed: {:?}", r1.expect_rejection()));
+            }
+            let total1 = r1.fee_summary.total_cost();
+            let snap = w.snap.clone();
+            w.sim.restore_snapshot(snap);
+            // pass 2: first lock sized relative to the measured cost (what other locks / free credit may contribute is subtracted)
+            let success1 = r1.is_commit_success();
+            let others = if sc == 2 || (sc == 3 && success1) { fb } else { Decimal::ZERO };
+            let need = total1.checked_sub(others).unwrap().checked_sub(free).unwrap();
+            let fa = match rel {
+                -2 => Decimal::from_attos(I192::from(1000u32)),
+                -1 => need.checked_sub(Decimal::from_attos(I192::ONE)).unwrap(),
+                0 => need,
+                1 => need.checked_add(Decimal::from_attos(I192::ONE)).unwrap(),
+                _ => need.checked_add(dec!(3)).unwrap(),
+            };
+            let fa = if fa.is_negative() { Decimal::ZERO } else { fa };
+            let m2 = manifest(w, sc as u64, fa, fb);
+            let r = match run(w, m2, tip, free) {
+                Ok(r) => r,
+                Err(p) => {
+                    self.w = None;
+                    return Answer::fail("panic", "c06e-executor-panic", format!("executor panicked: {}", p));
+                }
+            };
+            // ---------------------------------------------------------------- oracle
+            let fs = &r.fee_summary;
+            let total = big(fs.total_cost());
+            let cp = &r.costing_parameters;
+            if fs.total_execution_cost_units_consumed > cp.execution_cost_unit_limit || fs.total_finalization_cost_units_consumed > cp.finalization_cost_unit_limit {
+                return Answer::fail("limit", "c06e-cost-unit-limit-exceeded", "cost units above limit in a receipt");
+            }
+            // the tip is exactly (execution + finalization) * proportion for protocol prices
+            let prop = big(tip.proportion());
+            let one = BigInt::from(ONE);
+            let exp_tip = (big(fs.total_execution_cost_in_xrd) * &prop) / &one + (big(fs.total_finalization_cost_in_xrd) * &prop) / &one;
+            if exp_tip != big(fs.total_tipping_cost_in_xrd) {
+                return Answer::fail("tip", "c06e-tip-mismatch", format!("tipping cost {} expected {}", fs.total_tipping_cost_in_xrd, exp_tip));
+            }
+            match &r.result {
+                TransactionResult::Commit(c) => {
+                    let success = matches!(c.outcome, TransactionOutcome::Success(_));
+                    let paid: BigInt = c.fee_source.paying_vaults.values().map(|d| big(*d)).sum();
+                    let free_used = &total - &paid;
+                    if free_used.is_negative() || free_used > big(free) {
+                        return Answer::fail("commit", "c06e-collected-not-total-cost", format!("vaults paid {} + free credit (max {}) vs total cost {}", paid, free, total));
+                    }
+                    // free credit is used last: it may only be used when every eligible lock is exhausted
+                    let lock_of = |v: &NodeId| -> (BigInt, bool) {
+                        if *v == w.va { (big(fa), false) } else if *v == w.vb { (big(fb), sc >= 3) } else { (BigInt::zero(), false) }
+                    };
+                    for (v, amt) in &c.fee_source.paying_vaults {
+                        let (locked, contingent) = lock_of(v);
+                        if big(*amt).is_negative() || big(*amt) > locked {
+                            return Answer::fail("commit", "c06e-payment-exceeds-lock", format!("vault pays {} but locked {}", amt, locked));
+                        }
+                        if contingent && !success && !amt.is_zero() {
+                            return Answer::fail("commit", "c06e-contingent-paid-on-failure", format!("contingent lock paid {} on failure", amt));
+                        }
+                        if free_used.is_positive() && !(contingent && !success) && big(*amt) != locked {
+                            return Answer::fail("commit", "c06e-free-credit-not-last", "free credit used although a lock was not exhausted");
+                        }
+                    }
+                    let d = &c.fee_destination;
+                    let roy: BigInt = d.to_royalty_recipients.values().map(|x| big(*x)).sum();
+                    if big(d.to_proposer) + big(d.to_validator_set) + big(d.to_burn) + &roy != total || roy != big(fs.total_royalty_cost_in_xrd) {
+                        return Answer::fail("commit", "c06e-distribution-not-exact", format!("proposer {} validators {} burn {} royalties {} vs total {}", d.to_proposer, d.to_validator_set, d.to_burn, roy, total));
+                    }
+                    if d.to_proposer.is_negative() || d.to_validator_set.is_negative() || d.to_burn.is_negative() {
+                        return Answer::fail("commit", "c06e-negative-share", "negative share");
+                    }
+                    // events
+                    let mut pay_ev = BigInt::zero();
+                    let mut burn_ev = BigInt::zero();
+                    let mut last_deposit = BigInt::zero();
+                    for (id, data) in &c.application_events {
+                        if id.1 == "PayFeeEvent" {
+                            pay_ev += big(scrypto_decode::<PayFeeEvent>(data).unwrap().amount);
+                        } else if id.1 == "BurnFungibleResourceEvent" {
+                            if let Emitter::Method(n, _) = &id.0 {
+                                if *n == XRD.into_node_id() {
+                                    burn_ev += big(scrypto_decode::<BurnFungibleResourceEvent>(data).unwrap().amount);
+                                }
+                            }
+                        } else if id.1 == "DepositEvent" {
+                            if let Ok(e) = scrypto_decode::<DepositEvent>(data) {
+                                last_deposit = big(e.amount);
+                            }
+                        }
+                    }
+                    if pay_ev != paid {
+                        return Answer::fail("commit", "c06e-payfee-events", format!("PayFee events {} vs paying vaults {}", pay_ev, paid));
+                    }
+                    if burn_ev != big(d.to_burn) {
+                        return Answer::fail("commit", "c06e-burn-event", format!("Burn events {} vs to_burn {}", burn_ev, d.to_burn));
+                    }
+                    let rewards = big(d.to_proposer) + big(d.to_validator_set);
+                    if rewards.is_positive() && last_deposit != rewards {
+                        return Answer::fail("commit", "c06e-rewards-deposit-event", format!("rewards vault deposit {} vs proposer+validators {}", last_deposit, rewards));
+                    }
+                    // a commit needs the non-contingent locks + free credit to cover the cost (loan repaid)
+                    let nc: BigInt = big(fa) + if sc == 2 { big(fb) } else { BigInt::zero() } + big(free);
+                    let cont: BigInt = if sc >= 3 && success { big(fb) } else { BigInt::zero() };
+                    if &nc + &cont < total {
+                        return Answer::fail("commit", "c06e-committed-without-cover", format!("committed with locks {} + contingent {} < total cost {}", nc, cont, total));
+                    }
+                    Answer::ok(format!("commit {} rel={} free_used={}", if success { "success" } else { "failure" }, rel, if free_used.is_zero() { "0" } else { "+" }))
+                }
+                TransactionResult::Reject(_) => {
+                    // rejected: what was locked (non-contingent) + free credit must indeed be short of the cost measured in pass 1
+                    let nc: BigInt = big(fa) + if sc == 2 { big(fb) } else { BigInt::zero() } + big(free);
+                    if rel >= 0 && nc >= big(total1) {
+                        return Answer::fail("reject", "c06e-rejected-although-covered", format!("rejected although locks+credit {} cover the measured cost {}", nc, total1));
+                    }
+                    Answer::ok(format!("reject rel={}", rel))
+                }
+                TransactionResult::Abort(_) => Answer::ok("abort"),
+            }
+        }
+    }
+}
+
 fn main() {
-    main_with(&[("c06", &A)]);
+    main_with(&[("c06", &A), ("c06e", &e::E)]);
 }
